@@ -753,16 +753,43 @@ func (f *Frame) appendCall(common *ssa.CallCommon, args []Val) Val {
 	off := e.define("appoff", "Int", fmt.Sprintf("(ite %s (sl_off %s) 0)", fits, s))
 	ncap := f.havocVal(tInt, "appcap")
 	e.assert(fmt.Sprintf("(and (>= %s %s) (=> %s (= %s (sl_cap %s))))", ncap.T, newLen, fits, ncap.T, s))
+	// append(s, x1, ..., xn) with a short literal argument list: the new backing
+	// array as ground store terms (in place: the old array with the new elements
+	// stored behind the old length; reallocated: a copy of the old elements with
+	// them stored at len..len+n-1) - solvers handle these far better than the
+	// quantified description used for the general case below
+	staticN := int64(-1)
+	if sl, ok := common.Args[1].(*ssa.Slice); ok && !srcIsStr && sl.Low == nil && sl.High == nil {
+		if pt, ok := sl.X.Type().Underlying().(*types.Pointer); ok {
+			if at, ok := pt.Elem().Underlying().(*types.Array); ok && at.Len() <= 4 {
+				staticN = at.Len()
+			}
+		}
+	}
 	na := e.fresh("apparrv")
 	e.decl(na, "(Array Int "+es+")")
-	// old elements preserved (in place: whole old array outside the appended window; fresh: copied prefix)
-	e.assert(fmt.Sprintf("(=> %s (forall ((k Int)) (=> (or (< k (+ (sl_off %s) (sl_len %s))) (>= k (+ (sl_off %s) %s))) (= (select %s k) (select (select %s (sl_base %s)) k)))))", fits, s, s, s, newLen, na, cur, s))
-	e.assert(fmt.Sprintf("(=> (not %s) (forall ((k Int)) (=> (and (<= 0 k) (< k (sl_len %s))) (= (select %s k) (select (select %s (sl_base %s)) (+ (sl_off %s) k))))))", fits, s, na, cur, s, s))
-	// appended elements
-	if srcIsStr {
-		e.assert(fmt.Sprintf("(forall ((k Int)) (=> (and (<= 0 k) (< k %s)) (= (select %s (+ %s (sl_len %s) k)) (str_at %s k))))", n, na, off, s, args[1].T))
+	if staticN >= 0 {
+		cp := e.fresh("appcopy")
+		e.decl(cp, "(Array Int "+es+")")
+		e.assert(fmt.Sprintf("(forall ((k Int)) (! (=> (and (<= 0 k) (< k (sl_len %s))) (= (select %s k) (select (select %s (sl_base %s)) (+ (sl_off %s) k)))) :pattern ((select %s k))))", s, cp, cur, s, s, cp))
+		inPlace := fmt.Sprintf("(select %s (sl_base %s))", cur, s)
+		realloc := cp
+		for k := int64(0); k < staticN; k++ {
+			x := fmt.Sprintf("(select (select %s (sl_base %s)) (+ (sl_off %s) %d))", cur, args[1].T, args[1].T, k)
+			inPlace = fmt.Sprintf("(store %s (+ (sl_off %s) (sl_len %s) %d) %s)", inPlace, s, s, k, x)
+			realloc = fmt.Sprintf("(store %s (+ (sl_len %s) %d) %s)", realloc, s, k, x)
+		}
+		e.assert(fmt.Sprintf("(= %s (ite %s %s %s))", na, fits, inPlace, realloc))
 	} else {
-		e.assert(fmt.Sprintf("(forall ((k Int)) (=> (and (<= 0 k) (< k %s)) (= (select %s (+ %s (sl_len %s) k)) (select (select %s (sl_base %s)) (+ (sl_off %s) k)))))", n, na, off, s, cur, args[1].T, args[1].T))
+		// old elements preserved (in place: whole old array outside the appended window; fresh: copied prefix)
+		e.assert(fmt.Sprintf("(=> %s (forall ((k Int)) (=> (or (< k (+ (sl_off %s) (sl_len %s))) (>= k (+ (sl_off %s) %s))) (= (select %s k) (select (select %s (sl_base %s)) k)))))", fits, s, s, s, newLen, na, cur, s))
+		e.assert(fmt.Sprintf("(=> (not %s) (forall ((k Int)) (=> (and (<= 0 k) (< k (sl_len %s))) (= (select %s k) (select (select %s (sl_base %s)) (+ (sl_off %s) k))))))", fits, s, na, cur, s, s))
+		// appended elements
+		if srcIsStr {
+			e.assert(fmt.Sprintf("(forall ((k Int)) (=> (and (<= 0 k) (< k %s)) (= (select %s (+ %s (sl_len %s) k)) (str_at %s k))))", n, na, off, s, args[1].T))
+		} else {
+			e.assert(fmt.Sprintf("(forall ((k Int)) (=> (and (<= 0 k) (< k %s)) (= (select %s (+ %s (sl_len %s) k)) (select (select %s (sl_base %s)) (+ (sl_off %s) k)))))", n, na, off, s, cur, args[1].T, args[1].T))
+		}
 	}
 	e.hset(f.heap, ev, fmt.Sprintf("(store %s %s %s)", cur, base, na))
 	return Val{T: e.define("app", "Slice", fmt.Sprintf("(mk_slice %s %s %s %s)", base, off, newLen, ncap.T))}
